@@ -10,3 +10,7 @@ import PMH.Props.C09
 #print axioms PMH.C09.reinit_eq_new
 #print axioms PMH.DensP.densifyOpt_structure
 #print axioms PMH.DensP.densifyRev_structure
+#print axioms PMH.C09.optimal_finishing_terminates_almost_surely
+#print axioms PMH.C09.optimal_finishing_fuel_bound
+#print axioms PMH.C09.reverse_finishing_terminates_almost_surely
+#print axioms PMH.C09.reverse_finishing_fuel_bound
